@@ -48,6 +48,49 @@ def search (a : Array Nat) (x : Nat) : Option Nat := searchLoop a x (a.size + 1)
 /-- `set[index] & (1<<bit) != 0`. -/
 def bitSet (w : Word) (bit : Nat) : Bool := w &&& (1#64 <<< bit) != 0#64
 
+/-- Compile-time replacement for `bitSet` (the definition above is untouched; the oracle
+executable tests the bit directly instead of building the mask with three bignum operations).
+Kernel-checked equality, used only by the code generator (`csimp`). -/
+def bitSetFast (w : Word) (bit : Nat) : Bool := w.getLsbD bit
+
+@[csimp] theorem bitSet_eq_bitSetFast : @bitSet = @bitSetFast := by
+  funext w bit
+  unfold bitSet bitSetFast
+  by_cases hb : bit < 64
+  · have hmask : ∀ i, (1#64 <<< bit : BitVec 64).getLsbD i = decide (i = bit) := by
+      intro i
+      rw [BitVec.getLsbD_shiftLeft, BitVec.getLsbD_one]
+      by_cases h : i = bit
+      · subst h; simp [hb]
+      · simp only [h, decide_false]
+        by_cases h2 : i < bit
+        · simp [h2]
+        · have : ¬ (i - bit = 0) := by omega
+          simp [this]
+    by_cases h : w.getLsbD bit = true
+    · rw [h]
+      simp only [bne_iff_ne, ne_eq]
+      intro h0
+      have := congrArg (fun z => BitVec.getLsbD z bit) h0
+      simp [BitVec.getLsbD_and, hmask, h] at this
+    · simp only [Bool.not_eq_true] at h
+      rw [h]
+      simp only [bne_eq_false_iff_eq]
+      apply BitVec.eq_of_getLsbD_eq
+      intro i hi
+      rw [BitVec.getLsbD_and, hmask]
+      by_cases hib : i = bit
+      · subst hib; simp [h]
+      · simp [hib]
+  · have hge : 64 ≤ bit := by omega
+    rw [BitVec.getLsbD_of_ge w bit hge]
+    simp only [bne_eq_false_iff_eq]
+    apply BitVec.eq_of_getLsbD_eq
+    intro i hi
+    rw [BitVec.getLsbD_and, BitVec.getLsbD_shiftLeft]
+    have : i < bit := by omega
+    simp [this]
+
 /-- `Bitmap.Add(num)`: returns the new word slice and whether the bit was newly set. -/
 def bitmapAdd (w : Array Word) (num : Nat) : Option (Array Word × Bool) :=
   let index := num >>> 6
@@ -328,6 +371,55 @@ def Inner.next : Inner → Inner × Bool
     let j1 := if read then j + 1 else j            -- if bi.read { bi.read = false; bi.j++ }
     let (i', j', found) := scanWords (w.toList.drop i) i j1
     (.bmpIt w i' j' found, found)
+
+/-- `scanWords (w.toList.drop i) i j` computed on the array by index (`n` = `w.size - i`). -/
+def scanWordsA (w : Array Word) : Nat → Nat → Nat → Nat × Nat × Bool
+  | 0, i, j => (i, j, false)
+  | n + 1, i, j =>
+    match w[i]? with
+    | none => (i, j, false)
+    | some x =>
+      match scanWord x (64 - j) j with
+      | some j' => (i, j', true)
+      | none => scanWordsA w n (i + 1) 0
+
+theorem scanWords_drop_eq (w : Array Word) : ∀ (n i j : Nat), n = w.size - i →
+    scanWords (w.toList.drop i) i j = scanWordsA w n i j := by
+  intro n
+  induction n with
+  | zero =>
+    intro i j h
+    have : w.toList.drop i = [] := List.drop_eq_nil_of_le (by simp; omega)
+    rw [this]; rfl
+  | succ n ih =>
+    intro i j h
+    have hi : i < w.size := by omega
+    have hd : w.toList.drop i = w[i] :: w.toList.drop (i + 1) := by
+      rw [← Array.getElem_toList (h := by simpa using hi)]
+      exact List.drop_eq_getElem_cons (by simpa using hi)
+    have hg : w[i]? = some w[i] := Array.getElem?_eq_getElem hi
+    rw [hd]
+    simp only [scanWords, scanWordsA, hg]
+    cases hs : scanWord w[i] (64 - j) j with
+    | some j' => rfl
+    | none => exact ih (i + 1) 0 (by omega)
+
+/-- Compile-time replacement for `Inner.next` (definition above untouched): the same scan
+without rebuilding `w.toList.drop i` on every call.  Kernel-checked equality (`csimp`). -/
+def Inner.nextFast : Inner → Inner × Bool
+  | .arrIt vals i => if i < (vals.size : Int) - 1 then (.arrIt vals (i + 1), true) else (.arrIt vals i, false)
+  | .bmpIt w i j read =>
+    let j1 := if read then j + 1 else j
+    let (i', j', found) := scanWordsA w (w.size - i) i j1
+    (.bmpIt w i' j' found, found)
+
+@[csimp] theorem Inner.next_eq_nextFast : @Inner.next = @Inner.nextFast := by
+  funext it
+  cases it with
+  | arrIt vals i => rfl
+  | bmpIt w i j read =>
+    unfold Inner.next Inner.nextFast
+    simp only [scanWords_drop_eq w (w.size - i) i _ rfl]
 
 /-- `uint16Iter.Value()`. -/
 def Inner.value : Inner → Option Nat
